@@ -27,6 +27,14 @@ pub enum T {
     Map(Vec<(T, T)>),
     /// a message literal: leading dot, dotted type name, fields
     Msg(bool, Vec<&'static str>, Vec<(&'static str, T)>),
+    /// a list, map or message literal written with the optional trailing comma
+    Trail(Box<T>),
+    /// `.x`: an identifier with a leading dot
+    DotId(&'static str),
+    /// `.f(args)`: a global call with a leading dot (kept in the name)
+    DotCall(&'static str, Vec<T>),
+    /// a.`f`: selection of a back-quoted field (the name keeps its back quotes)
+    SelEsc(Box<T>, &'static str),
 }
 
 const REL: [&str; 7] = ["<", "<=", ">=", ">", "==", "!=", "in"];
@@ -46,7 +54,7 @@ fn prec(t: &T) -> u32 {
         T::Not(_) | T::Neg(_) => 7,
         T::Int(i) if *i < 0 => 7, // a signed literal behaves like a prefix form after '-'
         T::Dbl(t) if t.starts_with('-') => 7,
-        T::Sel(..) | T::Idx(..) | T::MCall(..) => 8,
+        T::Sel(..) | T::Idx(..) | T::MCall(..) | T::SelEsc(..) => 8,
         _ => 9,
     }
 }
@@ -154,6 +162,18 @@ pub fn expected(t: &T) -> String {
             o.push(')');
             o
         }
+        T::Trail(a) => expected(a),
+        T::DotId(n) => expected(&T::Id(n)),
+        T::DotCall(f, args) => {
+            let mut o = format!("(call {} none", sx_str(&format!(".{}", f)));
+            for a in args {
+                o.push(' ');
+                o.push_str(&expected(a));
+            }
+            o.push(')');
+            o
+        }
+        T::SelEsc(a, f) => format!("(sel {} {} false)", expected(a), sx_str(&format!("`{}`", f))),
         T::Msg(lead, names, fields) => {
             let name = format!("{}{}", if *lead { "." } else { "" }, names.join("."));
             let mut o = format!("(struct {}", sx_str(&name));
@@ -190,7 +210,19 @@ pub fn print_full(t: &T) -> String {
         T::Map(es) => format!("{{{}}}", es.iter().map(|(k, v)| format!("{}: {}", p(k), p(v))).collect::<Vec<_>>().join(", ")),
         T::Msg(lead, names, fields) => format!("{}{}{{{}}}", if *lead { "." } else { "" }, names.join("."),
                                                fields.iter().map(|(n, v)| format!("{}: {}", n, p(v))).collect::<Vec<_>>().join(", ")),
+        T::Trail(a) => with_trailing_comma(print_full(a)),
+        T::DotId(n) => format!(".{}", n),
+        T::DotCall(f, args) => format!(".{}({})", f, commas(args, &|x| p(x))),
+        T::SelEsc(a, f) => format!("{}.`{}`", p(a), f),
     }
+}
+
+/// `[a, b]` -> `[a, b,]`, `[]` -> `[,]` (the same for braces)
+fn with_trailing_comma(mut s: String) -> String {
+    let close = s.pop().unwrap();
+    s.push(',');
+    s.push(close);
+    s
 }
 
 /// minimal parentheses under CEL's precedence table
@@ -236,6 +268,10 @@ pub fn print_min(t: &T) -> String {
         T::Map(es) => format!("{{{}}}", es.iter().map(|(k, v)| format!("{}: {}", print_min(k), print_min(v))).collect::<Vec<_>>().join(", ")),
         T::Msg(lead, names, fields) => format!("{}{}{{{}}}", if *lead { "." } else { "" }, names.join("."),
                                                fields.iter().map(|(n, v)| format!("{}: {}", n, print_min(v))).collect::<Vec<_>>().join(", ")),
+        T::Trail(a) => with_trailing_comma(print_min(a)),
+        T::DotId(n) => format!(".{}", n),
+        T::DotCall(f, args) => format!(".{}({})", f, commas(args, &|x| print_min(x))),
+        T::SelEsc(a, f) => format!("{}.`{}`", at(a, 8), f),
     }
 }
 
@@ -243,7 +279,7 @@ fn starts_with_number(t: &T) -> bool {
     match t {
         T::Int(i) => *i >= 0,
         T::Dbl(t) => !t.starts_with('-'),
-        T::Sel(a, _) | T::Idx(a, _) | T::MCall(a, _, _) => prec(a) >= 8 && starts_with_number(a),
+        T::Sel(a, _) | T::Idx(a, _) | T::MCall(a, _, _) | T::SelEsc(a, _) => prec(a) >= 8 && starts_with_number(a),
         _ => false,
     }
 }
@@ -318,7 +354,7 @@ fn random_tree(rng: &mut Rng, depth: u32) -> T {
                 _ => T::Int(rng.range(0, 9)),
             },
             3 => if rng.chance(1, 2) { T::Int(-rng.range(1, 9)) } else { T::Dbl(*rng.pick(&["1.5", "-1.5", "0.0", "2e3", "-2.5e-3", ".5", "1e10", "-0.0", "3.14159"])) },
-            _ => T::Id("x"),
+            _ => if rng.chance(1, 6) { T::DotId(*rng.pick(&["x", "a"])) } else { T::Id("x") },
         };
     }
     let d = depth - 1;
@@ -332,7 +368,7 @@ fn random_tree(rng: &mut Rng, depth: u32) -> T {
         6 => T::Bin(*rng.pick(&MUL[..]), b(rng), b(rng)),
         7 => T::Not(b(rng)),
         8 => T::Neg(b(rng)),
-        9 => T::Sel(b(rng), "f"),
+        9 => if rng.chance(1, 5) { T::SelEsc(b(rng), *rng.pick(&["f", "a.b", "x-y z", "0"])) } else { T::Sel(b(rng), "f") },
         10 => T::Idx(b(rng), b(rng)),
         11 => {
             if rng.chance(1, 3) {
@@ -354,6 +390,9 @@ fn random_tree(rng: &mut Rng, depth: u32) -> T {
         12 => {
             if rng.chance(1, 4) {
                 T::GCall("has", vec![T::Sel(b(rng), "f")])
+            } else if rng.chance(1, 5) {
+                let n = rng.below(3);
+                T::DotCall(*rng.pick(&["g", "has", "size"]), (0..n).map(|_| random_tree(rng, d)).collect())
             } else {
                 let n = rng.below(3);
                 let f = if n != 1 && rng.chance(1, 4) { "has" } else if rng.chance(1, 6) { *rng.pick(&["all", "map"]) } else { "g" };
@@ -361,7 +400,8 @@ fn random_tree(rng: &mut Rng, depth: u32) -> T {
             }
         }
         _ => {
-            if rng.chance(1, 4) {
+            let trail = rng.chance(1, 4);
+            let lit = if rng.chance(1, 4) {
                 let n = rng.below(3);
                 let names: Vec<&'static str> = match rng.below(3) { 0 => vec!["T"], 1 => vec!["pkg", "T"], _ => vec!["a", "b", "Msg"] };
                 T::Msg(rng.chance(1, 3), names, (0..n).map(|i| (["f", "g", "h"][i as usize], random_tree(rng, d))).collect())
@@ -371,7 +411,8 @@ fn random_tree(rng: &mut Rng, depth: u32) -> T {
             } else {
                 let n = rng.below(3);
                 T::Map((0..n).map(|_| (random_tree(rng, d), random_tree(rng, d))).collect())
-            }
+            };
+            if trail { T::Trail(Box::new(lit)) } else { lit }
         }
     }
 }
@@ -386,6 +427,10 @@ fn ops(t: &T) -> u32 {
         T::GCall(_, args) | T::List(args) => 1 + args.iter().map(ops).sum::<u32>(),
         T::Map(es) => 1 + es.iter().map(|(k, v)| ops(k) + ops(v)).sum::<u32>(),
         T::Msg(_, _, fs) => 1 + fs.iter().map(|(_, v)| ops(v)).sum::<u32>(),
+        T::Trail(a) => ops(a),
+        T::DotId(_) => 0,
+        T::DotCall(_, args) => 1 + args.iter().map(ops).sum::<u32>(),
+        T::SelEsc(a, _) => 1 + ops(a),
     }
 }
 
@@ -449,6 +494,23 @@ fn st_wire(t: &T, full: bool) -> Option<String> {
             o.push(')');
             o
         }
+        T::Trail(a) => {
+            // the same form under the tag of the trailing-comma constructor
+            let w = st_wire(a, full)?;
+            let (tag, rest) = w[1..].split_once(|c| c == ' ' || c == ')').map(|(t, _)| (t.to_string(), w[1 + t.len()..].to_string()))?;
+            format!("({}t{}", tag, rest)
+        }
+        T::DotId(n) => format!("(dotid {})", sx_str(n)),
+        T::DotCall(f, args) => {
+            let mut o = format!("(dotcall {}", sx_str(f));
+            for a in args {
+                o.push(' ');
+                o.push_str(&sub(a)?);
+            }
+            o.push(')');
+            o
+        }
+        T::SelEsc(a, f) => format!("(selesc {} {})", sub(a)?, sx_str(&format!("`{}`", f))),
         T::Msg(lead, names, fields) => {
             let mut o = format!("(msg {} (names{})", lead, names.iter().map(|n| format!(" {}", sx_str(n))).collect::<String>());
             for (n, v) in fields {
